@@ -28,7 +28,9 @@ pub use crate::c08gen::generate;
 
 pub const OVERSIZE_SLACK: usize = 1 << 20;
 pub const ZERO_COL_ROW_CAP: usize = 1000;
-const HANG_TIMEOUT_S: u64 = 5;
+/// A decode that has not finished after this long is a hang.  (Every legitimate case takes milliseconds; the margin
+/// absorbs scheduling starvation when the machine is saturated by parallel checks and builds.)
+const HANG_TIMEOUT_S: u64 = 30;
 
 pub fn fnv(s: &str) -> u64 {
     let mut h: u64 = 0xcbf29ce484222325;
@@ -531,28 +533,67 @@ fn rows_stage(raw: result::RawMetadataAndRawRows) -> String {
             }
         }
     }
-    // typed decoding into `Row` (dynamic `CqlValue`s), consumed until its first error: compared with the model
+    // typed decoding into `Row` (dynamic `CqlValue`s), consumed until its first error: rows decoded, the kind of the
+    // error, and a hash of the decoded values (C01's canonical value text) — all compared with the model
     let typed = {
         let mut n = 0usize;
-        let mut failed = false;
+        let mut failed: Option<String> = None;
+        let mut text = String::new();
         if let Ok(it) = dm.rows_iter::<Row>() {
             for r in it {
                 if n >= cap {
                     break;
                 }
-                if r.is_err() {
-                    failed = true;
-                    break;
+                match r {
+                    Err(e) => {
+                        failed = Some(row_typed_err_kind(&e));
+                        break;
+                    }
+                    Ok(row) => {
+                        let cells: Vec<String> = row
+                            .columns
+                            .iter()
+                            .map(|c| match c {
+                                None => "null".to_owned(),
+                                Some(v) => crate::c01::val_str(&crate::c01::from_cql(v)),
+                            })
+                            .collect();
+                        text.push_str(&cells.join(" "));
+                        text.push('\n');
+                        n += 1;
+                    }
                 }
-                n += 1;
             }
         }
-        format!(" typed={}{}", n, if failed { ":err" } else { "" })
+        format!(
+            " typed={}{} tv={:016x}",
+            n,
+            failed.map(|k| format!(":err:{}", k)).unwrap_or_default(),
+            fnv(&text)
+        )
     };
+    // `VectorIterator::nth` with boundary arguments on the first row of a single vector column
+    let nth_tok = nth_token(&dm);
+    // both raw row iterators to the end of the announced rows, also past Err items (the paged path uses the
+    // lending one): panic / hang oracle + they must agree
+    let _ = both_row_iterators(&dm, cap.min(2000));
     // further typed targets: crash / hang / allocation oracle only
     typed_decoders(&dm, cap);
     let rows_s = if ncols == 0 { format!("rows0={}", nrows) } else { format!("rows={}", lst(&rows)) };
-    format!("src={} {} rc={} {}{}{}", src, meta_str(dm.metadata()), dm.rows_count(), rows_s, rowerr, typed)
+    format!("src={} {} rc={} {}{}{}{}", src, meta_str(dm.metadata()), dm.rows_count(), rows_s, rowerr, typed, nth_tok)
+}
+
+/// Kind of the error of one `rows_iter::<Row>()` item: the raw skip of the row failed, or a column's value did.
+fn row_typed_err_kind(e: &scylla_cql::deserialize::DeserializationError) -> String {
+    use scylla_cql::deserialize::row::{BuiltinDeserializationError, BuiltinDeserializationErrorKind};
+    if let Some(b) = e.downcast_ref::<BuiltinDeserializationError>() {
+        return match &b.kind {
+            BuiltinDeserializationErrorKind::RawColumnDeserializationFailed { .. } => "RawCqlBytesReadError".to_owned(),
+            BuiltinDeserializationErrorKind::ColumnDeserializationFailed { err, .. } => crate::c01::de_kind(err),
+            _ => "OtherRow".to_owned(),
+        };
+    }
+    crate::c01::de_kind(e)
 }
 
 fn row_err_pos(e: &scylla_cql::deserialize::DeserializationError) -> (usize, String) {
@@ -564,6 +605,110 @@ fn row_err_pos(e: &scylla_cql::deserialize::DeserializationError) -> (usize, Str
         }
     }
     (usize::MAX, "rowerr?".into())
+}
+
+/// One item of a raw row iterator, canonically: the cells of an Ok row, or the failing column and error kind.
+fn raw_item_str(r: Result<ColumnIterator<'_, '_>, scylla_cql::deserialize::DeserializationError>) -> String {
+    match r {
+        Err(e) => {
+            let (c, k) = row_err_pos(&e);
+            format!("E{}:{}", c, k)
+        }
+        Ok(cols) => {
+            let mut cells: Vec<String> = Vec::new();
+            for c in cols {
+                match c {
+                    Ok(rc) => cells.push(match rc.slice {
+                        None => "null".into(),
+                        Some(s) => hex(s.as_slice()),
+                    }),
+                    Err(e) => {
+                        cells.push(format!("E{}", row_err_pos(&e).1));
+                        break;
+                    }
+                }
+            }
+            tup(&cells)
+        }
+    }
+}
+
+/// Every item (also after Err items, at most `cap`) of `RawRowIterator` and of `RawRowLendingIterator` (the paged
+/// path) over the same result; oracle: the two sequences are the same.
+fn both_row_iterators(dm: &result::DeserializedMetadataAndRawRows, cap: usize) -> (Vec<String>, Vec<String>) {
+    let mut plain: Vec<String> = Vec::new();
+    if let Ok(it) = dm.rows_iter::<ColumnIterator>() {
+        for r in it.take(cap) {
+            plain.push(raw_item_str(r));
+        }
+    }
+    let mut lending: Vec<String> = Vec::new();
+    let mut li = scylla_cql::deserialize::result::RawRowLendingIterator::new(dm.clone());
+    while lending.len() < cap {
+        match li.next() {
+            None => break,
+            Some(r) => lending.push(raw_item_str(r)),
+        }
+    }
+    if plain != lending {
+        let i = plain.iter().zip(lending.iter()).position(|(a, b)| a != b).unwrap_or(plain.len().min(lending.len()));
+        ORACLE.with(|o| {
+            o.borrow_mut().push(format!(
+                "RawRowLendingIterator differs from RawRowIterator at item {}: `{}` vs `{}` ({} vs {} items)",
+                i,
+                lending.get(i).map(|s| &s[..s.len().min(80)]).unwrap_or("-"),
+                plain.get(i).map(|s| &s[..s.len().min(80)]).unwrap_or("-"),
+                lending.len(),
+                plain.len()
+            ))
+        });
+    }
+    (plain, lending)
+}
+
+fn rle(items: &[String]) -> String {
+    let mut out: Vec<(String, usize)> = Vec::new();
+    for it in items.iter().filter(|s| s.starts_with('E')) {
+        let d = it[1..].to_owned();
+        match out.last_mut() {
+            Some((last, n)) if *last == d => *n += 1,
+            _ => out.push((d, 1)),
+        }
+    }
+    lst(&out.iter().map(|(d, n)| format!("{}*{}", d, n)).collect::<Vec<_>>())
+}
+
+pub const NTH_ARGS: [usize; 8] = [0, 1, 2, 3, 9000, 65534, 65535, usize::MAX];
+
+/// ` nth=[n:class;…]` for a result whose single column is a vector with fixed-size elements (`var` otherwise):
+/// `VectorIterator::<CqlValue>::nth(n)` on a fresh iterator over the first row's cell, class none / ok / err.
+fn nth_token(dm: &result::DeserializedMetadataAndRawRows) -> String {
+    use scylla_cql::deserialize::value::VectorIterator;
+    let specs = dm.metadata().col_specs();
+    if specs.len() != 1 || dm.rows_count() == 0 {
+        return String::new();
+    }
+    let ColumnType::Vector { typ, .. } = specs[0].typ() else { return String::new() };
+    let fixed = typ.type_size_for_vector().is_some();
+    let Ok(mut it) = dm.rows_iter::<(VectorIterator<CqlValue>,)>() else { return " nth=typecheck".into() };
+    match it.next() {
+        None => String::new(),
+        Some(Err(_)) => " nth=rowerr".into(),
+        Some(Ok((vi,))) => {
+            let mut out: Vec<String> = Vec::new();
+            for n in NTH_ARGS {
+                let mut c = vi.clone();
+                let cls = match c.nth(n) {
+                    None => "none",
+                    Some(Ok(_)) => "ok",
+                    Some(Err(_)) => "err",
+                };
+                let _ = c.size_hint();
+                out.push(format!("{}:{}", n, cls));
+            }
+            if fixed { format!(" nth={}", lst(&out)) } else { " nth=var".into() }
+        }
+    }
 }
 
 fn consume<T>(it: impl Iterator<Item = Result<T, scylla_cql::deserialize::DeserializationError>>, cap: usize) {
@@ -876,7 +1021,7 @@ fn finish(o: Option<Outcome>, input_len: usize, expect: &str, ctx: &mut Ctx) -> 
             if expect != "-" {
                 let want = u64::from_str_radix(expect, 16).unwrap_or(0);
                 // the typed-decoding token is not part of what the independent encoder predicts
-                let predicted: String = line.split(' ').filter(|w| !w.starts_with("typed=") && !w.starts_with("tab=")).collect::<Vec<_>>().join(" ");
+                let predicted: String = line.split(' ').filter(|w| !w.starts_with("typed=") && !w.starts_with("tv=") && !w.starts_with("tab=") && !w.starts_with("nth=")).collect::<Vec<_>>().join(" ");
                 if fnv(&predicted) != want {
                     ctx.fail(format!("well-formed frame did not decode to what was encoded: got `{}`", &line[..line.len().min(300)]));
                 }
@@ -933,30 +1078,17 @@ fn error_tail(bs: &[u8], cap: usize) -> String {
         Ok(_) => return "err notrows".into(),
         Err(_) => return "err meta".into(),
     };
-    let (mut ok, mut err) = (0usize, 0usize);
-    let mut rle: Vec<(String, usize)> = Vec::new();
-    // raw rows (`ColumnIterator` target): an item is Ok iff all cells of the row could be skipped
-    if let Ok(it) = dm.rows_iter::<ColumnIterator>() {
-        for r in it.take(cap) {
-            match r {
-                Ok(_) => ok += 1,
-                Err(e) => {
-                    err += 1;
-                    let (c, k) = row_err_pos(&e);
-                    let d = format!("{}:{}", c, k);
-                    match rle.last_mut() {
-                        Some((last, n)) if *last == d => *n += 1,
-                        _ => rle.push((d, 1)),
-                    }
-                }
-            }
-        }
-    }
+    let (plain, lending) = both_row_iterators(&dm, cap);
+    let ok = plain.iter().filter(|s| !s.starts_with('E')).count();
+    let lok = lending.iter().filter(|s| !s.starts_with('E')).count();
     format!(
-        "tail rc={} ok={} err={} errs={}",
+        "tail rc={} ok={} err={} errs={} lend={}:{}:{}",
         dm.rows_count(),
         ok,
-        err,
-        lst(&rle.iter().map(|(d, n)| format!("{}*{}", d, n)).collect::<Vec<_>>())
+        plain.len() - ok,
+        rle(&plain),
+        lok,
+        lending.len() - lok,
+        rle(&lending)
     )
 }
